@@ -191,14 +191,17 @@ ResolveStep(X, ord, dm, policy, U, P, acc, o) ==
                    [acc EXCEPT !.I = IF policy = "sdkconfig" THEN [@ EXCEPT !.c[c] = ys[Len(ys)]] ELSE @]
             ELSE acc
 
-LoadP(X, ord, R, F, policy) ==   \* into a fresh session
+\* a replacing load of a main sdkconfig into a session whose injected defaults so far are I0
+\* (injections made by earlier loads stay in force for the rest of the session)
+LoadPFrom(X, ord, R, F, policy, I0) ==
   LET base == Load(X, R, F, TRUE, NoUser(X).U, NoUser(X).P)
       dm == DefaultMarked(X, R, F)
       \* A.mode of a choice is only known once the choice has been evaluated: resolution of a
       \* choice evaluates the whole configuration under the injections made so far
       r == FoldLeft(LAMBDA acc, o : ResolveStep(X, ord, dm, policy, base.U, base.P, acc, o),
-                    [I |-> NoInj(X), mism |-> {}], ord)
+                    [I |-> I0, mism |-> {}], ord)
   IN [U |-> base.U, P |-> base.P, I |-> r.I, missing |-> base.missing, mism |-> r.mism]
+LoadP(X, ord, R, F, policy) == LoadPFrom(X, ord, R, F, policy, NoInj(X))   \* into a fresh session
 
 StripDefaults(F) == SelectSeq(F, LAMBDA ln : ~ln.d)
 
